@@ -33,25 +33,30 @@ structure PassEv where
 /-- absolute bucket index of a time stamp. -/
 def bucketIdx (c : WinCfg) (t : Nat) : Nat := (t - c.t0) / c.interval
 
-/-- bucket indices visible at `now`: the `size − 1` buckets before the current one. -/
-def visibleIdx (c : WinCfg) (now : Nat) : List Nat :=
-  let cur := bucketIdx c now
-  (List.range (c.size - 1)).filterMap fun d =>
-    -- j = cur − 1 − d, for d = 0 … size−2, as long as it is not before the creation time
-    if d + 1 ≤ cur then some (cur - 1 - d) else none
+/-- bucket `j` of a log (newest event first): every pass whose time stamp falls into bucket `j`,
+`val` of each summed, and their number. -/
+def bucketOf (c : WinCfg) (val : PassEv → Int) : List PassEv → Nat → Bucket
+  | [], _ => Bucket.empty
+  | e :: es, j => if bucketIdx c e.t = j then (bucketOf c val es j).add (val e) else bucketOf c val es j
 
-def countIn (c : WinCfg) (log : List PassEv) (j : Nat) : Int :=
-  ((log.filter fun e => bucketIdx c e.t = j).length : Nat)
+/-- the bucket indices visible at `now`, oldest first: the `size − 1` buckets before the current one
+(`none`: that bucket lies before the creation time and is empty). -/
+def visibleIdx (c : WinCfg) (now : Nat) : List (Option Nat) :=
+  (List.range (c.size - 1)).map fun i =>
+    if c.size ≤ bucketIdx c now + 1 + i then some (bucketIdx c now + 1 + i - c.size) else none
 
-def sumIn (c : WinCfg) (log : List PassEv) (j : Nat) : Int :=
-  ((log.filter fun e => bucketIdx c e.t = j).map (·.rt)).foldl (· + ·) 0
+def windowBuckets (c : WinCfg) (val : PassEv → Int) (log : List PassEv) (now : Nat) : List Bucket :=
+  (visibleIdx c now).map fun
+    | some j => bucketOf c val log j
+    | none => Bucket.empty
 
-/-- the per-bucket aggregates of the visible window, as `Bucket`s (sum of latencies / count of passes). -/
+/-- per-bucket latency sums / pass counts of the visible window. -/
 def rtBuckets (c : WinCfg) (log : List PassEv) (now : Nat) : List Bucket :=
-  (visibleIdx c now).map fun j => ⟨sumIn c log j, countIn c log j⟩
+  windowBuckets c (fun e => e.rt) log now
 
+/-- per-bucket pass counts of the visible window. -/
 def passBuckets (c : WinCfg) (log : List PassEv) (now : Nat) : List Bucket :=
-  (visibleIdx c now).map fun j => ⟨countIn c log j, countIn c log j⟩
+  windowBuckets c (fun _ => 1) log now
 
 /-- peak per-bucket pass count over the sliding window (at least 1). -/
 def peakPass (c : WinCfg) (log : List PassEv) (now : Nat) : Int := maxPassOf (passBuckets c log now)
